@@ -249,7 +249,7 @@ class C11(Check):
         """Compare the System with the ground truth restricted to the loaded species.
 
         level 0: iteration (complete per-atom fingerprint), len, composition; 1: + public Molecule
-        interface atom by atom, every index, out-of-range; 2: + slice cube with step in {None,-1,2};
+        interface atom by atom, every index, iteration interleaved with indexing and a second live iterator, out-of-range; 2: + slice cube with step in {None,-1,2};
         3: + full slice cube.  The checks of a lower level come first, in the same order.
         """
         want = [g for g in inst if g['sp'] in loaded]
@@ -295,6 +295,24 @@ class C11(Check):
                 return 'index/exception-in-range', f'[{i}] of {n}: {type(exc).__name__}: {exc}'
             if f != wfp[i]:
                 return 'index/disagrees-with-iteration', f'[{i}] of {n}'
+        # iteration interleaved with other accesses to the same System (index, a second live iterator)
+        got2 = []
+        other = iter(syst)
+        try:
+            for k, m in enumerate(syst):
+                got2.append(fp_mol(m))
+                if n:
+                    if fp_mol(syst[(2 * k + 1) % n]) != wfp[(2 * k + 1) % n]:
+                        return 'index/disagrees-with-iteration', f'[{(2 * k + 1) % n}] read while iterating'
+                    if k % 2 == 0:
+                        nxt = next(other, None)
+                        if nxt is not None and fp_mol(nxt) != wfp[k // 2]:
+                            return 'iter/second-live-iterator-differs', f'item {k // 2}'
+        except Exception as exc:
+            return 'iter/exception-when-interleaved-with-access', f'{type(exc).__name__}: {exc}'
+        if got2 != wfp:
+            return 'iter/disturbed-by-access-during-iteration', self._first_diff(got2, wfp) if len(got2) == n else \
+                f'{len(got2)} molecules, {n} instances'
         for i in (n, n + 1, -n - 1, -n - 2):
             try:
                 syst[i]
